@@ -59,9 +59,9 @@ func plan(thorough bool) []History {
 		for _, e1 := range eps {
 			for _, e2 := range eps {
 				switch {
-				case thorough && f.coins == 1:
+				case thorough && f.coins == 1 && e1 == e2:
 					p = append(p, History{Coins: 1, EP1: e1, EP2: e2, A1: "full", A2: "full"})
-				case (thorough && e1 == e2) || (f.coins == 1 && e1 == e2):
+				case (thorough && (e1 == e2 || f.coins == 1)) || (f.coins == 1 && e1 == e2):
 					p = append(p, History{Coins: f.coins, Lease: f.lease, EP1: e1, EP2: e2, A1: "full", A2: "reduced"})
 					p = append(p, History{Coins: f.coins, Lease: f.lease, EP1: e1, EP2: e2, A1: "reduced", A2: "extra"})
 				default:
@@ -87,10 +87,10 @@ func plan(thorough bool) []History {
 							mixed := mid != "" && end != "" && mid != end
 							rescan := mid == "rescan" || end == "rescan"
 							if thorough {
-								if mixed && f.coins == 2 {
+								if mixed && (f.coins == 2 || e1 != "send" || e2 != "send") {
 									continue
 								}
-								if f.lease && e1 != e2 {
+								if f.lease && (e1 != "send" || e2 != "send") {
 									continue
 								}
 							} else {
@@ -205,7 +205,7 @@ func Run(args []string) {
 	if !ev.IsWorker() {
 		cov := run.RunSharded(workers, append(append([]string{}, ShardArgsPrefix...), args...))
 		cov["rule"] = rule
-		cov["bounds"] = fmt.Sprintf("coins<=3 (1e8,2e8,3e8, P2WPKH BIP84 account 0), <=2 wallet sends in a chain (S1, child S2) or <=3 independent sends plus one child (initial answers accept, all 6 answer classes at each of the <=4 rebroadcast positions), <=2 resynchronisations (restart|rescan), <=1 confirming block, <=1 lease; initial-broadcast alphabet full=%d answers (accept, in-mempool, wrapped in-mempool, known, confirmed, %d other sentinels, opaque, NotifyReceived failure, change-subscription failure) or reduced=%d; rebroadcast alphabet=%d; full x full product for two-broadcast histories without resynchronisation (thorough, 1 coin), full x reduced + reduced x (full minus reduced) or reduced x reduced otherwise; reduced alphabets in histories with resynchronisations between two sends",
+		cov["bounds"] = fmt.Sprintf("coins<=3 (1e8,2e8,3e8, P2WPKH BIP84 account 0), <=2 wallet sends in a chain (S1, child S2) or <=3 independent sends plus one child (initial answers accept, all 6 answer classes at each of the <=4 rebroadcast positions), <=2 resynchronisations (restart|rescan), <=1 confirming block, <=1 lease; initial-broadcast alphabet full=%d answers (accept, in-mempool, wrapped in-mempool, known, confirmed, %d other sentinels, opaque, NotifyReceived failure, change-subscription failure) or reduced=%d; rebroadcast alphabet=%d; full x full product for two-broadcast histories without resynchronisation (thorough, 1 coin, both sends through the same entry point), full x reduced + reduced x (full minus reduced) or reduced x reduced otherwise; reduced alphabets in histories with resynchronisations between two sends",
 			len(al.full), al.nRPC-3+al.nVar, len(al.reduced), len(al.resend))
 		cov["histories"] = len(plan(run.Thorough()))
 		cov["sentinel_errors_enumerated"] = al.nRPC + al.nVar
